@@ -4,7 +4,7 @@ use std::mem::MaybeUninit;
 
 use srtla_core::connection::{LinkPhase, RttTracker, SrtlaConnection};
 use srtla_core::registration::{SrtlaRegistrationManager, VhRegState};
-use srtla_send::sender::verif_hooks::process_uplink_packet;
+use srtla_send::sender::verif_hooks::process_uplink_packet_fut as process_uplink_packet;
 
 use crate::shellutil::*;
 use crate::util::*;
